@@ -1,0 +1,9 @@
+//go:build !verif
+
+package xpath
+
+func verifStep(ctx *context, idx int, name string) {}
+func verifRunEnd(ctx *context)                     {}
+func verifLookupEnter(name string)                 {}
+func verifLookup(name string)                      {}
+func verifLookupExit(name string)                  {}
